@@ -156,6 +156,11 @@ def check_ms(t):
         if not all(isinstance(x, (int, float)) and not isinstance(x, bool) for x in diff) or abs(diff[0] - days) > 6e-9 or abs(diff[1] + days) > 6e-9:
             out.append(('difference of date-times %s apart (later - earlier, earlier - later)' % step, (days, -days), diff))
             break
+    if d >= datetime.datetime(1900, 3, 1) and (d.hour or d.minute or d.second or d.microsecond):
+        whole = d.toordinal() - D0          # the integer serial of that day's midnight: strictly before d, its successor strictly after
+        got = tuple(p.parse(f)['result'] for f in ('%d<ta' % whole, '%d=ta' % whole, 'ta>%d' % whole, '%d>ta' % (whole + 1), '%d>=ta' % whole, 'ta<>%d' % whole))
+        if got != (True, False, True, True, False, True):
+            out.append(('a whole-number serial against a date-time of that day (n<t, n=t, t>n, n+1>t, n>=t, t<>n)', (True, False, True, True, False, True), got))
     got = tuple(p.parse(f)['result'] for f in ('ta=tc', 'ta<tc', 'ta>=tc', 'ta=N(ta)', 'N(ta)<=ta'))
     if got != (True, False, True, True, True):
         out.append(('comparison operators on equal date-times / a date-time and its own serial', (True, False, True, True, True), got))
